@@ -2,6 +2,7 @@ package formatter
 
 import (
 	"strings"
+	"unicode"
 	"unicode/utf8"
 
 	"go.lsp.dev/protocol"
@@ -265,13 +266,13 @@ func calculateAmountCostLen(posting *ast.Posting, commodityFormats map[string]Nu
 	length := 0
 
 	if posting.Amount.Commodity.Position == ast.CommodityLeft {
-		length += utf8.RuneCountInString(posting.Amount.Commodity.Symbol)
+		length += utf8.RuneCountInString(commodityText(posting.Amount.Commodity))
 	}
 
 	length += utf8.RuneCountInString(formatAmountQuantity(posting.Amount, commodityFormats))
 
 	if posting.Amount.Commodity.Position == ast.CommodityRight {
-		length += 1 + utf8.RuneCountInString(posting.Amount.Commodity.Symbol)
+		length += 1 + utf8.RuneCountInString(commodityText(posting.Amount.Commodity))
 	}
 
 	if posting.Cost != nil {
@@ -281,11 +282,11 @@ func calculateAmountCostLen(posting *ast.Posting, commodityFormats map[string]Nu
 			length += 3 // " @ "
 		}
 		if posting.Cost.Amount.Commodity.Position == ast.CommodityLeft {
-			length += utf8.RuneCountInString(posting.Cost.Amount.Commodity.Symbol)
+			length += utf8.RuneCountInString(commodityText(posting.Cost.Amount.Commodity))
 		}
 		length += utf8.RuneCountInString(formatAmountQuantity(&posting.Cost.Amount, commodityFormats))
 		if posting.Cost.Amount.Commodity.Position == ast.CommodityRight {
-			length += 1 + utf8.RuneCountInString(posting.Cost.Amount.Commodity.Symbol)
+			length += 1 + utf8.RuneCountInString(commodityText(posting.Cost.Amount.Commodity))
 		}
 	}
 
@@ -379,23 +380,44 @@ func formatPostingWithOpts(posting *ast.Posting, alignment AlignmentInfo, commod
 
 func writeAmountWithSign(sb *strings.Builder, amount *ast.Amount, commodityFormats map[string]NumberFormat) {
 	qty := formatAmountQuantity(amount, commodityFormats)
+	symbol := commodityText(amount.Commodity)
 
 	if amount.Commodity.Position == ast.CommodityLeft {
 		if amount.SignBeforeCommodity && len(qty) > 0 && (qty[0] == '-' || qty[0] == '+') {
 			sb.WriteByte(qty[0])
-			sb.WriteString(amount.Commodity.Symbol)
+			sb.WriteString(symbol)
 			sb.WriteString(qty[1:])
 		} else {
-			sb.WriteString(amount.Commodity.Symbol)
+			sb.WriteString(symbol)
 			sb.WriteString(qty)
 		}
 	} else {
 		sb.WriteString(qty)
-		if amount.Commodity.Symbol != "" {
+		if symbol != "" {
 			sb.WriteString(" ")
-			sb.WriteString(amount.Commodity.Symbol)
+			sb.WriteString(symbol)
 		}
 	}
+}
+
+// commodityText returns the symbol as it has to be written to be read back as one
+// commodity: as it is when it is a currency sign, upper-case letters (which the lexer
+// can tell from the quantity that follows them) or, after the quantity, letters and
+// digits starting with a letter; in double quotes otherwise (blanks, signs, ...).
+func commodityText(c ast.Commodity) string {
+	plain := true
+	for i, r := range c.Symbol {
+		switch {
+		case r >= 'A' && r <= 'Z':
+		case c.Position == ast.CommodityRight && (unicode.IsLetter(r) || i > 0 && unicode.IsDigit(r)):
+		default:
+			plain = false
+		}
+	}
+	if plain || (utf8.RuneCountInString(c.Symbol) == 1 && strings.ContainsAny(c.Symbol, "$€£¥₽₴")) {
+		return c.Symbol
+	}
+	return `"` + c.Symbol + `"`
 }
 
 // formatAmountQuantity returns formatted quantity string.
